@@ -21,7 +21,8 @@ CMDS = [(['reg'], (), {}), (['reg'], (), {'oldReg': True}), (['reg'], (), {'temp
         (['summary'], ('2021/01/24',), {}), (['summary'], ('today',), {}), (['print'], (), {}), (['stats'], (), {}), (['lint'], ('log.yaml',), {}), (['lint'], ('food.yaml',), {'silent': True})]
 
 NASTY_NUMS = [b'nan', b'NaN', b'inf', b'-Inf', b'+infinity', b'1e999', b'-1e999', b'1e-999', b'0x1p-2', b'0x1.8p1', b'0x', b'1_000', b'_1', b'1__0', b'1e', b'.', b'-', b'+', b'1.2.3',
-              b'1e400', b'179769313486231580793728971405303415079934132710037826936173778980444968292764750946649017977587207096330286416692887910946555547851940402630657488671505820681908902000708383676273854845817711531764475730270069855571366959622842914819860834936475292719074168444365510704342711559699508093042880177904174497791.999', b'0.0000000000000000000000001', b'00012', b'-0', b'1E3', b'Infinity']
+              b'1e400', b'179769313486231580793728971405303415079934132710037826936173778980444968292764750946649017977587207096330286416692887910946555547851940402630657488671505820681908902000708383676273854845817711531764475730270069855571366959622842914819860834936475292719074168444365510704342711559699508093042880177904174497791.999', b'0.0000000000000000000000001', b'00012', b'-0', b'1E3', b'Infinity',
+              b'1e-324', b'3e-324', b'2.4703282292062327e-324', b'2.4703282292062328e-324', b'4.9e-324', b'-1e-400', b'0x1p-1075', b'0x1.000001p-1075', b'0x1p-1074']
 
 
 def mutate(g, data):
